@@ -640,6 +640,14 @@ func runC10(c *Ctx) {
 			okAdd = loadsField(inputOP)(mu.Key) && bytesFrom(mu.Value, loadsField(inputPK))
 		}
 		c.verdict(okAdd, c.nm(an)+" | cache[req.Input.OutPoint] = req.Input.PkScript", c.P.Pos(an.Pos()), "entry keyed by the request's outpoint holding its script", "addNewRequests does not enter the request's script under the request's outpoint")
+		// ... and every outpoint that is not in the cache yet gets there: the
+		// miss edge of the cache lookup leads to the map update within the
+		// iteration (an outpoint left out because "its script is watched
+		// already" loses its watch when the other outpoint is answered)
+		if lks := find(an, lookupsOn(loadsField(cache))); len(lks) >= 1 {
+			g := okIs("cache[outpoint]", lks)
+			c.mustFollowIter(an, "an outpoint that is not cached yet", c.failEdges(g), mapUpdate(loadsField(cache)), "cache[outpoint] = script", nil, 1)
+		}
 		fe := c.field("neutrino", "batchSpendReporter", "filterEntries")
 		nApp := 0
 		for _, x := range find(an, storeToField(fe)) {
